@@ -336,7 +336,7 @@ def p_sign(a: Poly) -> Optional[int]:
     return 2 * sgn
 
 
-def p_reduce(a: Poly, limit: int = 20000) -> Poly:
+def p_reduce(a: Poly, limit: int = 60000) -> Poly:
     """rewrite a**(2k+r) -> rule[a]**k * a**r for every atom with a square rule (equivalence preserving:
     the rule is the atom's definition).  Rules are triangular (rule[a] only mentions earlier atoms), so this
     terminates; highest atoms are eliminated first."""
